@@ -72,6 +72,9 @@ def handleO (s : StO) (line : String) : StO × String :=
       | "class" :: _ =>
         let (st', out) := handle s.st line
         ({ s with st := st' }, out)
+      | "pdecl" :: _ =>
+        let (st', out) := handle s.st line
+        ({ s with st := st' }, out)
       | ts =>
         match parseCall ts with
         | none => (s, "bad-op")
